@@ -439,7 +439,7 @@ struct World {
     switch (sub) {
       case 0: ok(v.append(a, make_val<T>(x)), "append"); m.push_back(make_val<T>(x)); break;
       case 1: { size_t n = 1 + umod(y, umod(z, 4) == 0 ? 300 : 40);
-        for (size_t i = 0; i < n; i++) { int64_t val = (z & 8) ? x - int64_t(i) : x + int64_t(i); ok(v.append(a, make_val<T>(val)), "append"); m.push_back(make_val<T>(val)); }
+        for (size_t i = 0; i < n; i++) { int64_t val = (z & 16) ? int64_t(umod(x + int64_t(i) * 3, 5)) : (z & 8) ? x - int64_t(i) : x + int64_t(i); ok(v.append(a, make_val<T>(val)), "append"); m.push_back(make_val<T>(val)); }
         break; }
       case 2: ok(v.prepend(a, make_val<T>(x)), "prepend"); m.insert(m.begin(), make_val<T>(x)); break;
       case 3: { size_t i = umod(y, m.size() + 1); ok(v.insert(a, i, make_val<T>(x)), "insert"); m.insert(m.begin() + long(i), make_val<T>(x)); break; }
@@ -866,7 +866,8 @@ struct World {
       case 13: b.and_(ob); for (size_t i = 0; i < m.size(); i++) m[i] = m[i] && (i < om.size() && om[i]); break;
       case 14: b.and_not(ob); for (size_t i = 0; i < m.size(); i++) m[i] = m[i] && !(i < om.size() && om[i]); break;
       case 15: b.or_(ob); for (size_t i = 0; i < m.size(); i++) m[i] = m[i] || (i < om.size() && om[i]); break;
-      case 16: { Error e = b.copy_from(a, ob); VH_CHECK(ctx, e == Error::kOk, "bitset-op-failed", "copy_from returned %u", unsigned(e)); if (om.size() < m.size()) ev_removal = true; m = om; break; }
+      case 16: { Error e = b.copy_from(a, ob); VH_CHECK(ctx, e == Error::kOk, "bitset-op-failed", "copy_from returned %u", unsigned(e)); if (om.size() < m.size()) ev_removal = true; m = om;
+        VH_CHECK(ctx, b.equals(ob) && ob.equals(b), "bitset-equals", "a copy does not compare equal to its source (size %zu)", m.size()); break; }
       case 17: { bool eq = (m == om);
         VH_CHECK(ctx, b.equals(ob) == eq && (b == ob) == eq && (b != ob) == !eq, "bitset-equals", "equals() says %d, models say %d (sizes %zu/%zu)", int(b.equals(ob)), int(eq), m.size(), om.size());
         if (eq && !m.empty()) cls("bitset.equals_true"); break; }
@@ -1319,7 +1320,7 @@ int64_t sel(int K, int H) { if (*vh::irange<int>(0, 99) < 5) return H; int v = *
 
 const std::vector<int> kSubW[K_COUNT] = {
   /*raw   */ {20, 6, 25, 8, 22, 6, 2, 2, 4, 3, 2},
-  /*vec   */ {10, 14, 4, 6, 8, 5, 2, 4, 5, 5, 4, 4, 4, 3, 4, 2, 2, 3, 5, 3, 3, 2, 5, 2},
+  /*vec   */ {10, 14, 4, 6, 8, 5, 2, 4, 5, 5, 4, 4, 4, 3, 4, 2, 2, 5, 7, 3, 3, 2, 5, 3},
   /*hash  */ {12, 14, 8, 8, 12, 2, 3, 2, 6, 4},
   /*tree  */ {12, 16, 6, 8, 14, 10, 3, 2, 4},
   /*list  */ {10, 8, 10, 10, 14, 6, 6, 3, 8, 2},
